@@ -69,7 +69,7 @@ pub fn frame_from_json(v: &Value) -> Option<uv::Frame> {
 
 fn fix_crc(b: &mut Vec<u8>) {
     let n = b.len();
-    if n < 5 {
+    if n < 4 {
         return;
     }
     let crc = uv::crc_compute(&b[..n - 4]);
@@ -183,7 +183,7 @@ fn log_reject(tr: &mut Trace, kind: &str, bytes: &[u8]) {
 /// appended (that function is bound to the polynomial by CrcSyn and by the Codec lines) and the outcome of the real
 /// Frame::read is logged next to the body.  MonCodec compares it with Decode(body) of Codec.tla.
 fn log_parse(tr: &mut Trace, src: &str, body: &[u8]) {
-    if body.is_empty() || body.len() > 1468 {
+    if body.len() > 1468 {
         return;
     }
     let mut full = body.to_vec();
@@ -353,6 +353,9 @@ pub fn run_codec(tr: &mut Trace, run: u64, seed: u64, vectors: Option<&str>) {
     for n in 0..5 {
         let b: Vec<u8> = (0..n).map(|_| r.next() as u8).collect();
         log_reject(tr, "short", &b);
+        // constant patterns: the CRC of the empty string is 0, so four zero bytes carry a "valid" checksum
+        log_reject(tr, "short", &vec![0u8; n]);
+        log_reject(tr, "short", &vec![0xFFu8; n]);
     }
     for _ in 0..30 {
         let n = r.below(1473) as usize;
